@@ -270,6 +270,11 @@ Proof.
     + intros E. rewrite E in Hc. subst st. discriminate.
 Qed.
 
+Lemma cut_keeps_all : forall fsz local stream t chunks,
+  len stream <= fsz - len local \/ stream = [] ->
+  d_local (download_session (Some fsz) local true stream t chunks) = local ++ stream.
+Proof. intros. now apply no_excess_all_kept. Qed.
+
 Lemma chunking_irrelevant : forall fsz local stream t c1 c2,
   len stream <= fsz - len local \/ stream = [] ->
   let r1 := download_session (Some fsz) local true stream t c1 in
